@@ -162,6 +162,8 @@ class _Meta:
 
         class _Cfg:
             max_pool_connections = 10
+            response_checksum_validation = "when_required"
+            request_checksum_calculation = "when_required"
 
         self.config = _Cfg()
 
@@ -339,13 +341,15 @@ class SolverSeam:
         self.fault_kind = None
         self.record_args = False
         self.fired = 0
+        self.ref_at = None
 
-    def reset(self, fault_at=None, fault_kind=None, record_args=False):
+    def reset(self, fault_at=None, fault_kind=None, record_args=False, ref_at=None):
         self.calls = []
         self.fault_at = fault_at
         self.fault_kind = fault_kind
         self.record_args = record_args
         self.fired = 0
+        self.ref_at = ref_at  # reference run: fit #ref_at is performed directly without weight normalisation
 
     def install(self):
         if self.installed:
@@ -375,6 +379,9 @@ class SolverSeam:
                     }
                     rec["args"] = args
                 seam.calls.append(rec)
+                if seam.ref_at is not None and idx == seam.ref_at:
+                    kwargs = dict(kwargs, normalize_weights=False)
+                    rec["ref_direct"] = True
                 if seam.fault_at is not None and idx == seam.fault_at:
                     seam.fired += 1
                     rec["raised"] = seam.fault_kind
